@@ -85,7 +85,12 @@ class ExprGen:
         self.cfg = cfg
 
     def pick(self, xs):
-        return self.draw(st.sampled_from(list(xs)))
+        xs = list(xs)
+        if not xs:
+            from .pipegen import GenSkip
+
+            raise GenSkip()
+        return self.draw(st.sampled_from(xs))
 
     def chance(self, num, den=10):
         return self.draw(st.integers(0, den - 1)) < num
